@@ -950,26 +950,30 @@ func unop(instr *ssa.UnOp, x value) value {
 // unless instr.CommaOk, in which case it always returns a "value,ok" tuple.
 func typeAssert(instr *ssa.TypeAssert, itf iface) value {
 	var v value
-	err := ""
+	ok := true
+	var err func() string // built lazily: type switches fail many assertions
 	if itf.t == nil {
-		err = fmt.Sprintf("interface conversion: interface is nil, not %s", instr.AssertedType)
-
-	} else if idst, ok := instr.AssertedType.Underlying().(*types.Interface); ok {
+		ok = false
+		err = func() string {
+			return fmt.Sprintf("interface conversion: interface is nil, not %s", instr.AssertedType)
+		}
+	} else if idst, isIface := instr.AssertedType.Underlying().(*types.Interface); isIface {
 		v = itf
-		err = checkInterface(idst, itf)
-
+		if msg := checkInterface(idst, itf); msg != "" {
+			ok = false
+			err = func() string { return msg }
+		}
 	} else if types.Identical(itf.t, instr.AssertedType) {
 		v = itf.v // extract value
-
 	} else {
-		err = fmt.Sprintf("interface conversion: interface is %s, not %s", itf.t, instr.AssertedType)
+		ok = false
+		err = func() string {
+			return fmt.Sprintf("interface conversion: interface is %s, not %s", itf.t, instr.AssertedType)
+		}
 	}
-	// Note: if instr.Underlying==true ever becomes reachable from interp check that
-	// types.Identical(itf.t.Underlying(), instr.AssertedType)
-
-	if err != "" {
+	if !ok {
 		if !instr.CommaOk {
-			panic(err)
+			panic(err())
 		}
 		return tuple{zero(instr.AssertedType), false}
 	}
